@@ -63,6 +63,23 @@ FEATURES = {
     "if-elif": ["qo = 2", "if qo == 1:", "    print('one')", "elif qo == 2:", "    print('two')", "else:", "    print('other')"],
     "fstring": ["qp = 3", "print(f'{qp!r:>{qp}}')"],
     "walrus": ["print((qq := 4) + qq)"],
+    # features whose helper-introducing construct itself *reads the identifier* ({I})
+    "while-test-uses": ["q0 = 0", "qsave = {I}", "while q0 < 2 and {I} is qsave:", "    q0 += 1", "print('wtu', q0)"],
+    "while-else-test-uses": ["q0 = 0", "qsave = {I}", "while {I} is qsave and q0 < 4:", "    q0 += 1", "    if q0 == 2:", "        continue", "    if q0 == 3:", "        break", "else:", "    print('no')", "print('wetu', q0)"],
+    "for-iter-uses": ["for q1 in [{I}, {I}]:", "    if q1 is not {I}:", "        break", "else:", "    print('fiu ok')"],
+    "for-break-body-uses": ["qsave = {I}", "for q1 in range(3):", "    if {I} is qsave and q1 == 1:", "        break", "print('fbu', q1)"],
+    "class-body-uses": ["class Q2:", "    a = {I}", "    b = [a, {I}]", "print('cbu', Q2.a is {I}, Q2.b[1] is {I})"],
+    "lambda-default-uses": ["ql = lambda qa=({I}), *qr, qk=({I}): (qa, qk)", "print('ldu', ql()[0] is {I}, ql()[1] is {I})"],
+    "def-default-and-deco-uses": ["def qdec(fn):", "    return fn", "@qdec", "def qf5(qa=({I}), *, qk=[{I}]):", "    return qa, qk", "print('ddu', qf5()[0] is {I}, qf5()[1][0] is {I})"],
+    "comp-uses": ["print('cu', [q is {I} for q in [{I}]], all({I} is q for q in ({I},)), {0: {I}}[0] is {I})"],
+    "aug-uses": ["qh = []", "qh += [{I}]", "qh[0:0] += [{I}]", "print('au', qh[0] is {I}, qh[1] is {I})"],
+    "destructure-uses": ["qa, (qb, *qc) = {I}, [{I}, {I}]", "print('du', qa is {I}, qb is {I}, qc[0] is {I})"],
+    "subscript-store-uses": ["qd = {}", "qd[0] = {I}", "qd[0] = [qd[0], {I}]", "print('ssu', qd[0][0] is {I}, qd[0][1] is {I})"],
+    "return-in-loop-uses": ["qsave = {I}", "def qf4():", "    for qx in range(3):", "        while {I} is qsave:", "            return {I}", "        return None", "print('rlu', qf4() is {I})"],
+    "if-test-uses": ["qsave = {I}", "if {I} is not qsave:", "    print('changed')", "elif {I} is qsave:", "    print('itu ok')"],
+    "global-store-uses": ["def qf1():", "    global qg1", "    qg1 = {I}", "qf1()", "print('gsu', qg1 is {I})"],
+    "walrus-uses": ["print('wu', (qq := {I}) is {I}, qq is {I})"],
+    "call-args-uses": ["def qf6(*qa, **qk):", "    return qa, qk", "print('cau', qf6({I}, *[{I}], q={I}, **{'r': {I}})[0][1] is {I})"],
 }
 
 
@@ -72,7 +89,7 @@ def _ind(lines, n=1):
 
 def cell_program(ident, role, feat):
     """Bind `ident` in `role` to a recognisable value, run the feature snippet in the same scope, observe the binding."""
-    F = FEATURES[feat]
+    F = [l.replace("{I}", ident) for l in FEATURES[feat]]
     I = ident
     if role == "global":
         return [I + " = 'USER'"] + F + ["print('obs', " + I + ")"]
@@ -100,18 +117,19 @@ def cell_program(ident, role, feat):
 
 # which builtin spellings the generated code itself calls for a feature (the recorded finding KF-helper-builtins)
 HELPER_TABLE = {
-    "type": ["class", "class-init-subclass", "super0", "aug-attr"],
-    "setattr": ["for-break", "return-in-loop", "aug-attr", "class-init-subclass"],
-    "hasattr": ["aug-name", "aug-subscript", "aug-attr", "global-store", "nonlocal-store", "while", "while-else-break"],
-    "iter": ["for-break", "return-in-loop"],
-    "next": ["for-break", "return-in-loop"],
-    "tuple": ["destructure", "destructure-star"],
-    "list": ["destructure-star"],
-    "slice": ["slice-store", "aug-subscript"],
-    "globals": ["global-store", "from-import"],
-    "locals": ["from-import"],
-    "__import__": ["import-dotted", "from-import"],
-    "classmethod": ["class-init-subclass"],
+    'type': ["aug-attr", "class", "class-body-uses", "class-init-subclass", "super0"],
+    'setattr': ["aug-attr", "class-init-subclass", "for-break", "for-break-body-uses", "for-iter-uses", "return-in-loop", "return-in-loop-uses"],
+    'hasattr': ["aug-attr", "aug-name", "aug-subscript", "aug-uses", "global-store", "nonlocal-store", "while", "while-else-break", "while-else-test-uses", "while-test-uses"],
+    'iter': ["for-break", "for-break-body-uses", "for-iter-uses", "return-in-loop", "return-in-loop-uses"],
+    'next': ["for-break", "for-break-body-uses", "for-iter-uses", "return-in-loop", "return-in-loop-uses"],
+    'tuple': ["destructure", "destructure-star", "destructure-uses"],
+    'list': ["destructure-star", "destructure-uses"],
+    'slice': ["aug-subscript", "aug-uses", "slice-store"],
+    'globals': ["from-import", "global-store", "global-store-uses"],
+    'locals': ["from-import"],
+    '__import__': ["from-import", "import-dotted"],
+    'classmethod': ["class-init-subclass"],
+    '__class__': ["class-body-uses"],
 }
 
 
@@ -243,6 +261,11 @@ def run_shard(rec):
     idx = 0
     # (a) the matrix
     for ident, role, feat in itertools.product(IDENTS, ROLES, FEATURES):
+        if ident == "__class__" and role == "classattr":
+            # the *reference interpreter* (CPython 3.12.1) segfaults on a class body that binds __class__ and reads it
+            # in a comprehension: out of domain, the cell is not generated
+            rec.count("excluded: reference interpreter crashes on the original")
+            continue
         idx += 1
         if idx % rec.nshards != rec.shard:
             continue
